@@ -697,7 +697,8 @@ fn setup_space_list_check(
                 );
 
                 let is_value = left_node.definition.is_value_like();
-                let is_group_value = left_node.definition.is_group_like() && last_left != current_group;
+                // a side effect results in no value, it can't be the first item of a list
+                let is_group_value = left_node.definition.is_group_like() && left_node.definition != Definition::SideEffect && last_left != current_group;
                 // a suffix operation results in a value, same as the value it was applied to
                 let is_suffix_value = left_node.secondary_definition == SecondaryDefinition::UnarySuffix;
                 if is_value || is_group_value || is_suffix_value {
